@@ -92,6 +92,16 @@ func topDefraFrame(stk []string) string {
 	return "no-stack"
 }
 
+// firstDefra reports whether the innermost defradb frame satisfies pred.
+func firstDefra(stk []string, pred func(string) bool) bool {
+	for _, f := range stk {
+		if isDefraFrame(f) {
+			return pred(f)
+		}
+	}
+	return false
+}
+
 func hasFrame(stk []string, pred func(string) bool) bool {
 	for _, f := range stk {
 		if pred(f) {
@@ -118,6 +128,7 @@ func innerOfDefra(stk []string, pred func(string) bool) bool {
 func isBadgerTxn(f string) bool {
 	return strings.HasPrefix(f, "github.com/dgraph-io/badger/v4.(*Txn).") ||
 		strings.HasPrefix(f, "github.com/dgraph-io/badger/v4.(*Iterator).") ||
+		strings.HasPrefix(f, "github.com/dgraph-io/badger/v4.(*Item).") ||
 		strings.HasPrefix(f, "github.com/dgraph-io/badger/v4.(*pendingWritesIterator).")
 }
 
@@ -130,15 +141,36 @@ func isGraphqlGo(f string) bool {
 }
 
 func viaSharedTxn(stk []string) bool {
-	return hasFrame(stk, func(f string) bool { return strings.Contains(f, "verifharness/c16.") && strings.Contains(f, "viaSharedTxn") })
+	return hasFrame(stk, func(f string) bool {
+		return strings.Contains(f, "verifharness/c16.") && strings.Contains(f, "viaSharedTxn")
+	})
 }
 
 // Signatures of the diagnosed classes (each needs every condition named in its
 // diagnoser; anything else gets the generic pair signature).
 const (
-	sigStoreBypass = "C16/race/shared-txn/badger-txn-accessed-without-wrapper-mutex"
-	sigLazyTypes   = "C16/race/graphql-go/lazy-type-definition"
+	sigStoreBypass  = "C16/race/shared-txn/badger-txn-accessed-without-wrapper-mutex"
+	sigLazyTypes    = "C16/race/graphql-go/lazy-type-definition"
+	sigParserSwap   = "C16/race/graphql-parser/schema-manager-replaced-without-synchronisation"
+	sigTxnCallbacks = "C16/race/shared-txn/callback-lists-appended-without-lock"
+
+	sigRedeletePanic       = "C16/panic/client.(*Document).GetValue/collection-delete-of-invisible-document-with-index"
+	sigMergeCorruptedIndex = "C16/merge-lost/corrupted-index/local-write-overlaps-merge-on-indexed-collection"
+	sigIndexWriteSkew      = "C16/structure/index-content/write-overlaps-create-index"
+	sigIndexStaleDoc       = "C16/structure/index-content/collection-update-with-stale-document"
+	sigPushHeadsPanic      = "C16/fatal/unclosed-iterator/net.(*Peer).pushHeadsForAllDocs-returns-early"
 )
+
+func isParserMethod(f string) bool {
+	return strings.HasPrefix(f, modPrefix+"internal/request/graphql.(*parser).")
+}
+
+func isTxnCallback(f string) bool {
+	if !strings.HasPrefix(f, modPrefix+"internal/datastore.(*BasicTxn).On") {
+		return false
+	}
+	return true
+}
 
 // raceSignature reduces a report to its signature. caseSharedTxn tells whether
 // the case used a shared concurrent transaction at all.
@@ -148,8 +180,8 @@ func raceSignature(r raceReport, caseSharedTxn bool) string {
 	// unwrapped transaction, so concurrentTxn.mu is never taken on a data access.
 	// One side may be the construction of a key or entry in the corekv wrappers that the other
 	// side later finds in the transaction's pending writes.
-	if caseSharedTxn && innerOfDefra(r.Stk[0], isStoreLayer) && innerOfDefra(r.Stk[1], isStoreLayer) &&
-		(innerOfDefra(r.Stk[0], isBadgerTxn) || innerOfDefra(r.Stk[1], isBadgerTxn)) &&
+	// or of a value that the other side's iterator copies out of them.
+	if caseSharedTxn && (innerOfDefra(r.Stk[0], isBadgerTxn) || innerOfDefra(r.Stk[1], isBadgerTxn)) &&
 		viaSharedTxn(r.Stk[0]) && viaSharedTxn(r.Stk[1]) {
 		return sigStoreBypass
 	}
@@ -158,6 +190,18 @@ func raceSignature(r raceReport, caseSharedTxn bool) string {
 		return sigLazyTypes
 	}
 	a, b := topDefraFrame(r.Stk[0]), topDefraFrame(r.Stk[1])
+	// (c) the commit callback of a schema change stores parser.schemaManager while a request on
+	// another goroutine reads it through a method of the same parser
+	swap := "internal/request/graphql.(*parser).SetSchema.func1"
+	if (a == swap && firstDefra(r.Stk[1], isParserMethod)) || (b == swap && firstDefra(r.Stk[0], isParserMethod)) {
+		return sigParserSwap
+	}
+	// (d) two calls carrying the shared transaction register commit/discard callbacks: the
+	// appends in BasicTxn.On{Success,Error,Discard}[Async] have no lock
+	if caseSharedTxn && firstDefra(r.Stk[0], isTxnCallback) && firstDefra(r.Stk[1], isTxnCallback) &&
+		viaSharedTxn(r.Stk[0]) && viaSharedTxn(r.Stk[1]) {
+		return sigTxnCallbacks
+	}
 	if a > b {
 		a, b = b, a
 	}
@@ -177,4 +221,44 @@ func readRaceReports(prefix string) []raceReport {
 		out = append(out, parseRaceLog(string(raw))...)
 	}
 	return out
+}
+
+// goroutineFrames extracts the function names (leaf first) of the first goroutine of a Go
+// crash dump ("goroutine N [running]:" block).
+func goroutineFrames(dump string) []string {
+	i := strings.Index(dump, "\ngoroutine ")
+	if i < 0 {
+		return nil
+	}
+	var out []string
+	lines := strings.Split(dump[i+1:], "\n")
+	for _, line := range lines[1:] {
+		if strings.TrimSpace(line) == "" {
+			break
+		}
+		if strings.HasPrefix(line, "\t") || strings.HasPrefix(line, " ") {
+			continue
+		}
+		if strings.HasPrefix(line, "created by ") {
+			break
+		}
+		if j := strings.LastIndex(line, "("); j > 0 {
+			line = line[:j]
+		}
+		out = append(out, line)
+	}
+	return out
+}
+
+// fatalSignature reduces a runtime-fatal error or unrecovered panic of the child to a signature.
+func fatalSignature(what, dump string, caseSharedTxn bool) string {
+	stk := goroutineFrames(dump)
+	if caseSharedTxn && strings.Contains(what, "concurrent map") && innerOfDefra(stk, isBadgerTxn) && viaSharedTxn(stk) {
+		// the runtime caught the unsynchronised access to the transaction's pending writes itself
+		return sigStoreBypass
+	}
+	if strings.Contains(what, "Unclosed iterator") && hasFrame(stk, func(f string) bool { return f == modPrefix+"net.(*Peer).pushHeadsForAllDocs" }) {
+		return sigPushHeadsPanic
+	}
+	return "C16/fatal/" + errClass(what) + "/" + topDefraFrame(stk)
 }
